@@ -156,6 +156,16 @@ CHECKS = {
             'Held on the executions observed.',
             'Trusted: vf/xlref lazy semantics. What an enclosing operator does with an error VALUE delivered by a nest is not '
             'judged (not claimed by the statement); text conditions not generated.'),
+    'C17': ('runtime monitoring: boundary oracle = Python slicing / own wildcard search (vf/xlref) over override sweeps; rebuild law '
+            'checked on the recorded results',
+            'Texts over a mixed-case alphabet with wildcard and regex-special characters (all of length <=2/3, random up to 8) are '
+            'sliced by LEFT/RIGHT/MID with every count and position in [-2..len+2] (raw and wrapped in "["&..&"]"), rebuilt by '
+            'LEFT(t,n)&MID(t,n+1,len), searched with needles made of substrings, case variants, wildcard patterns, escaped '
+            'wildcards, regex-special and absent texts at every start position (through cells and as literals), joined by & and '
+            'CONCATENATE with integer, boolean, blank, integral-float and decimal operands, and converted back by VALUE; every '
+            'result is compared exactly with the reference, #VALUE! demanded exactly for SEARCH misses. Held on the executions observed.',
+            'Trusted: vf/xlref text semantics. An empty-text result delivered as the blank object is accepted raw (it must still join as ""); '
+            'SEARCH with a start position below 1: either reading. Non-text first arguments not generated.'),
     'C18': ('runtime monitoring: hooked state assertion on Excel.parse (grid, titles, sizes) + boundary observation of every '
             'planted constant vs the generator\'s cell map cross-read by openpyxl\'s regular loader',
             'Generated sparse workbooks (1-12 worksheets in random order, chart sheets between them, empty sheets, blocks away '
